@@ -341,6 +341,92 @@ fn race_scenario(addr: std::net::SocketAddr, certs: PathBuf, log: EvLog, rounds:
     th.join().map_err(|_| anyhow!("race thread panicked"))?
 }
 
+// ------------------------------------------------------------------ frames pipelined behind the registration
+/// C01 / C11: a peer need not wait for `Ok` before it goes on: whatever follows the registration
+/// frame in the same write belongs to the stream and has to be served like anything sent later.
+async fn pipeline_round(raw: &quinn::Connection, client: &Client, topic: &str, pattern: &str) -> Result<String> {
+    let tn = TopicName::try_from(topic)?;
+    let msg = |s: &str, h: Option<std::collections::HashMap<String, String>>| Frame::Message(MessagePayload { headers: h, message: Bytes::from(s.to_string()) });
+    if pattern == "pubsub" {
+        let mut sub = client.subscriber(topic).with_decoder(StringCodec).open().await?;
+        let mut sync = client.publisher(topic).with_encoder(StringCodec).open().await?;
+        let deadline = tokio::time::Instant::now() + Duration::from_secs(8);
+        loop {
+            sync.send("marker".to_string()).await?;
+            if let Ok(Some(Ok(_))) = tokio::time::timeout(Duration::from_millis(40), sub.next()).await {
+                break;
+            }
+            if tokio::time::Instant::now() > deadline {
+                return Ok("subscription never took effect".into());
+            }
+        }
+        let mut st = raw_stream(raw).await?;
+        st.feed(reg_frame("pub", tn)).await?;
+        st.feed(msg("p0", None)).await?;
+        st.feed(msg("p1", None)).await?;
+        st.flush().await?;
+        let (kind, _) = first_reply(&mut st).await;
+        if kind != "ok" {
+            return Ok(format!("registration answered {kind}"));
+        }
+        st.send(msg("p2", None)).await?;
+        let mut got: Vec<String> = vec![];
+        let deadline = tokio::time::Instant::now() + Duration::from_secs(5);
+        while got.len() < 3 {
+            match tokio::time::timeout_at(deadline, sub.next()).await {
+                Ok(Some(Ok(s))) if s == "marker" => {}
+                Ok(Some(Ok(s))) => got.push(s),
+                _ => break,
+            }
+        }
+        let _ = st.finish().await;
+        let _ = sync.finish().await;
+        if got == ["p0", "p1", "p2"] {
+            Ok("ok".into())
+        } else {
+            Ok(format!("published p0 p1 (with the registration) p2, subscriber received {got:?}"))
+        }
+    } else {
+        let mut replier = client
+            .replier(topic)
+            .with_request_decoder(StringCodec)
+            .with_reply_encoder(StringCodec)
+            .with_handler(|req: String| async move { Ok::<String, anyhow::Error>(format!("re:{req}")) })
+            .open()
+            .await?;
+        let listen = tokio::spawn(async move {
+            let _ = replier.listen().await;
+        });
+        tokio::time::sleep(Duration::from_millis(50)).await;
+        let mut st = raw_stream(raw).await?;
+        let h = |i: u32| Some(std::collections::HashMap::from([("req_id".to_string(), i.to_string())]));
+        st.feed(reg_frame("req", tn)).await?;
+        st.feed(msg("q0", h(0))).await?;
+        st.flush().await?;
+        let (kind, _) = first_reply(&mut st).await;
+        if kind != "ok" {
+            listen.abort();
+            return Ok(format!("registration answered {kind}"));
+        }
+        st.send(msg("q1", h(1))).await?;
+        let mut got: Vec<String> = vec![];
+        let deadline = tokio::time::Instant::now() + Duration::from_secs(5);
+        while got.len() < 2 {
+            match tokio::time::timeout_at(deadline, st.next()).await {
+                Ok(Some(Ok(Frame::Message(m)))) => got.push(String::from_utf8_lossy(&m.message).to_string()),
+                _ => break,
+            }
+        }
+        listen.abort();
+        got.sort();
+        if got == ["re:q0", "re:q1"] {
+            Ok("ok".into())
+        } else {
+            Ok(format!("asked q0 (with the registration) and q1, replies received {got:?}"))
+        }
+    }
+}
+
 pub async fn cmd_server(args: Vec<String>) -> Result<()> {
     count_panics();
     let env = setup(&args, "server")?;
@@ -435,10 +521,24 @@ pub async fn cmd_server(args: Vec<String>) -> Result<()> {
         let (addr, certs, log) = (env.server.addr, env.certs.clone(), env.log.clone());
         tokio::task::spawn_blocking(move || race_scenario(addr, certs, log, rounds, seed)).await??;
     }
+    // C01 / C11: frames pipelined behind the registration frame
+    for (i, pattern) in ["pubsub", "reqrep", "pubsub", "reqrep"].iter().enumerate() {
+        env.log.emit("case", json!({"run": 700_000 + i as u64, "scenario": "pipeline", "pattern": pattern}));
+        let topic = format!("/vpipe{}/round{}", seed % 1000, i);
+        let res = match tokio::time::timeout(Duration::from_secs(40), pipeline_round(&raw, &client, &topic, pattern)).await {
+            Ok(Ok(s)) => s,
+            Ok(Err(e)) => {
+                env.log.emit("harness_error", json!({"err": e.to_string()}));
+                continue;
+            }
+            Err(_) => "round did not finish within 40 s".to_string(),
+        };
+        env.log.emit("pipeline_round", json!({"pattern": pattern, "res": res}));
+    }
     selium_server::verif::set_observer(None);
     env.log.flush();
     let _ = std::fs::remove_dir_all(&env.certs);
-    println!("{}", json!({"runs": cases.len() + rounds as usize, "events": env.log.lines()}));
+    println!("{}", json!({"runs": cases.len() + rounds as usize + 4, "events": env.log.lines()}));
     Ok(())
 }
 
@@ -689,6 +789,12 @@ pub async fn cmd_tls(args: Vec<String>) -> Result<()> {
     // clients configured with CA T first: a client configured later with CA O (same certificate)
     // must not inherit anything from them
     cases.sort_by_key(|c| (c["trust"].as_str().unwrap_or("T") != "T", c["via"].as_str().unwrap_or("") != "library"));
+    // ... and then everything once more in the opposite order: the decision for a pairing must not
+    // depend on which pairings were accepted or refused before it in the same process (session
+    // caches, remembered configurations)
+    let mut again = cases.clone();
+    again.reverse();
+    cases.extend(again);
     // two independent certificate sets from the bundled generator (fresh keys every run)
     let set1 = PathBuf::from(format!("{out}.certs-a"));
     let set2 = PathBuf::from(format!("{out}.certs-b"));
